@@ -76,6 +76,12 @@ class ObjEval(NumEval):
 
     def ev(self, t: Term, depth: Optional[int] = None) -> AV:
         d = self.depth if depth is None else depth
+        if t[0] in ('attr', 'sub') and t[1][0] == 'call':
+            # field / element of a record (NamedTuple) built in place: the value passed in
+            from .util import resolve_namedtuples
+            t2 = resolve_namedtuples(self.repo, t)
+            if t2 != t:
+                return self.ev(t2, depth)
         r = self.inputs(t)
         if r is not None:
             return r
